@@ -4,6 +4,9 @@
 //	match    filepath.Match itself (what schema.ExcludeRealm calls) vs the model of it
 //	exclude  schema.ExcludeRealm / ExcludeSchema on generated realms x pattern lists
 //	skip     SchemaDiff of the sqlite/mysql/postgres DefaultDiff with DiffSkipChanges(K), all K
+//	reuse    sequences of SchemaDiff calls that share option values (DiffSkipChanges, DiffNormalized), 3 dialects
+//	inspect  sqlite InspectSchema / InspectRealm with kept Exclude values, on a database with tables main, secret
+//	policy   the cmdapi diff policy objects (project file diff { skip {} }) kept and reused over a sequence of diffs (CLI hook)
 //	cli      the real atlas binary: schema inspect/apply --exclude, --env with diff.skip, on SQLite files
 //	gen      writes coq/theories/gen/Gen_SkipKinds.v from the Go sources
 //
@@ -22,7 +25,7 @@ import (
 )
 
 func main() {
-	mode := flag.String("mode", "match", "match|exclude|skip|cli|gen")
+	mode := flag.String("mode", "match", "match|exclude|skip|reuse|inspect|policy|cli|gen")
 	tier := flag.String("tier", "quick", "quick|thorough")
 	outDir := flag.String("out", "", "output directory")
 	flag.Parse()
@@ -46,6 +49,12 @@ func main() {
 		runExclude(w, *tier)
 	case "skip":
 		runSkip(w, *tier)
+	case "reuse":
+		runReuse(w, *tier)
+	case "inspect":
+		runInspect(w, *tier)
+	case "policy":
+		runPolicy(w, *tier)
 	case "cli":
 		runCLI(w, *tier)
 	default:
